@@ -165,6 +165,18 @@ Definition g_wrapper_step_pinned (E : env) (s : state) (acts : list Z) : state *
     let '(s2, (o, i)) := e_reset E s1 no_rarg in
     (s2, {| tobs := o; trew := trew tr; tterm := tterm tr; ttrunc := ttrunc tr; tinfo := i |})
   else (s1, tr).
+
+(* any history of calls on one environment under auto-reset: steps and explicit resets, in any order *)
+Inductive sevent := SeStep (acts : list Z) | SeReset (ra : rarg).
+Inductive soutcome := SoStep (t : trans) | SoReset (o : dict obs_t * dict info_t).
+Fixpoint g_events (E : env) (s : state) (evs : list sevent) : state * list soutcome :=
+  match evs with
+  | [] => (s, [])
+  | SeStep acts :: rest => let '(s', t) := g_single_step E s acts in
+                           let '(sf, os) := g_events E s' rest in (sf, SoStep t :: os)
+  | SeReset ra :: rest => let '(s', o) := e_reset E s ra in
+                          let '(sf, os) := g_events E s' rest in (sf, SoReset o :: os)
+  end.
 End Env.
 
 (* ------------------------------------------------------------------ shared memory *)
@@ -258,6 +270,9 @@ Definition expand_seed (n : nat) (sd : seedspec) : list (option Z) :=
 Definition reset_args (n : nat) (sd : seedspec) (opt : option Z) : list rarg :=
   map (fun s => (s, opt)) (expand_seed n sd).
 
+Inductive vevent := EvStep (actions : dict (list Z)) | EvReset (sd : seedspec) (opt : option Z).
+Inductive voutcome := OStep (o : vout) | OReset (o : dict (list varr) * vinfo).
+
 Section Parent.
 Context {env state : Type}.
 Variable wstep : env -> list nat -> state -> list Z -> state * trans.
@@ -316,6 +331,17 @@ Fixpoint g_vec_run (k : okind) (agents : list nat) (Es : list env) (st : gvstate
   | [] => (st, [])
   | a :: rest => let '(st', o) := g_vec_step k agents Es st a in
                  let '(stf, os) := g_vec_run k agents Es st' rest in (stf, o :: os)
+  end.
+
+(* any history of calls on the vector environment: step(actions) and reset(seed, options) in any order *)
+Fixpoint g_vec_events (k : okind) (agents : list nat) (Es : list env) (st : gvstate state)
+         (evs : list vevent) : gvstate state * list voutcome :=
+  match evs with
+  | [] => (st, [])
+  | EvStep a :: rest => let '(st', o) := g_vec_step k agents Es st a in
+                        let '(stf, os) := g_vec_events k agents Es st' rest in (stf, OStep o :: os)
+  | EvReset sd opt :: rest => let '(st', o) := g_vec_reset k agents Es st sd opt in
+                              let '(stf, os) := g_vec_events k agents Es st' rest in (stf, OReset o :: os)
   end.
 End Parent.
 
@@ -394,3 +420,5 @@ Definition workers_reset := g_workers_reset worker_reset kind.
 Definition vec_reset := g_vec_reset worker_reset kind.
 Definition vec_init := @g_vec_init senv sstate init_state.
 Definition vec_run := g_vec_run worker_step kind.
+Definition vec_events := g_vec_events worker_step worker_reset kind.
+Definition single_events := g_events raw_step env_reset live.
